@@ -3,6 +3,7 @@ package props
 import (
 	"errors"
 	"fmt"
+	"io"
 
 	"github.com/intel/fastgo/verif/env"
 	"github.com/intel/fastgo/verif/mc"
@@ -16,7 +17,7 @@ func init() {
 		ID:       "C14",
 		Category: "fault_enumeration",
 		Rule: "operation sequences S over {Write(piece), Flush, Close}: length <=2 over pieces {small, 10 KB, fill, >64 KiB} (quick); thorough: length <=3 over {small, 10 KB, fill} and length <=2 over those plus >64 KiB and 200 KB incompressible; N(S) = destination calls of the fault-free run; " +
-			"header variants (zlib with dictionary, gzip with extra/name/comment, flate with dictionary) over {small, 10 KB}; for EVERY k in 1..N(S) the k-th destination call fails with a fresh error value, accepting 0 or len/2 bytes; then every continuation of length <=2 (<=1 when k>2 in quick, k>6 in thorough) over {W(small), W(fill), Flush, Close}; " +
+			"header variants (zlib with dictionary, gzip with extra/name/comment, flate with dictionary) over {small, 10 KB}; for EVERY k in 1..N(S) the k-th destination call fails with a fresh error value (for one-operation sequences and k <= 2 also with io.EOF, io.ErrShortWrite, io.ErrClosedPipe), accepting 0 or len/2 bytes; then every continuation of length <=2 (<=1 when k>2 in quick, k>6 in thorough) over {W(small), W(fill), Flush, Close}; " +
 			"oracle: the operation in progress returns exactly that error, every later call returns a non-nil error and makes no destination call, no panic, guard zones intact, Reset revives the Writer; " +
 			"non-trivial = the injected failure was reached (k <= N(S)); distinct = distinct (setting, S, k, short-count, continuation)",
 		Assumptions: []string{"the destination reports failure through its error result (a short count with a nil error is outside the statement)"},
@@ -140,7 +141,20 @@ func c14Harness(cfg *Cfg) func(x *mc.Exec) {
 		}
 		fk := 1 + x.Choose(N, "fail-at-call")
 		short := x.Choose(2, "short-count") == 1
+		// the error value: a fresh one, or (one-operation sequences, failures at the first two destination calls) one of the values a Writer
+		// might confuse with a condition of its own
 		E := env.NewErr(fmt.Sprintf("k=%d", fk))
+		evName := "fresh"
+		if fk <= 2 && len(S) <= 1 {
+			switch x.Choose(4, "error-value") {
+			case 1:
+				E, evName = io.EOF, "io.EOF"
+			case 2:
+				E, evName = io.ErrShortWrite, "io.ErrShortWrite"
+			case 3:
+				E, evName = io.ErrClosedPipe, "io.ErrClosedPipe"
+			}
+		}
 		sink := &env.Sink{FailAt: fk, FailErr: E, FailShort: short}
 		r, err := newRun(k, sink)
 		if err != nil {
@@ -159,7 +173,7 @@ func c14Harness(cfg *Cfg) func(x *mc.Exec) {
 						x.NonTrivial()
 						if !errors.Is(err, E) { // the injected value itself or a wrapper that errors.Is recognises
 							x.Fail(fmt.Sprintf("C14 error-not-reported %s op=%s got=%s", tag, opName(op), errClass2(err, E)),
-								"%s [%s]: destination call %d failed with %v inside %s, which returned %v", k, r.hist, fk, E, opName(op), err)
+								"%s [%s]: destination call %d failed with %v (%s) inside %s, which returned %v", k, r.hist, fk, E, evName, opName(op), err)
 							return false
 						}
 						return true
